@@ -275,6 +275,8 @@ Lemma do_resolve_ok root path nosym nofollow stack :
 Proof.
   intros Hroot Hs. unfold do_resolve, os.
   eapply okp_bindR; [apply okp_map_err, dup_cloexec_ok; exact Hroot| |intro; exact I]. intros rd Hrd.
+  destruct (EMPTY_PATH_IS_ENOENT && is_nil path).
+  { eapply okp_bind; [apply ret_partial_ok; [repeat split; assumption|discriminate]|]. intros r Hr. constructor. exact Hr. }
   eapply okp_bind; [apply walk_ok; [repeat split; assumption|apply singles_raw]|]. intros r Hr.
   constructor. exact Hr.
 Qed.
